@@ -22,7 +22,11 @@ theorem nondestructive_only_allocates {h h' : Heap} {op : Op} {res : Ref}
     exact ⟨ext, by rw [← he, hr]⟩
   | alias x => simp [run] at hr; exact ⟨[], by simp [hr.1]⟩
   | cons v x => simp [run] at hr; exact ⟨_, hr.1.symm⟩
-  | listStar v w x => simp [run] at hr; exact ⟨_, hr.1.symm⟩
+  | listStar v w x =>
+    simp only [run] at hr
+    obtain ⟨ext, he⟩ := allocList_grows h [v, w] x
+    simp at hr
+    exact ⟨ext, by rw [← he, hr]⟩
   | append x y =>
     unfold run at hr
     cases hx : chainOf h x with
@@ -272,7 +276,7 @@ theorem destructive_writes_within_footprint {h h' : Heap} {op : Op} {res : Ref}
       rw [← hr.1]
       apply linkCells_notin
       intro hm
-      exact hfp (List.mem_filter.mp hm).1
+      exact hfp (keptCells_subset hm)
 
 /-- **destructive_footprint.** `nconc nreverse sort delete rplaca rplacd (setf car/nth/elt) add`
     change only cells reachable from their list arguments: a list none of whose cells is reachable
@@ -428,5 +432,388 @@ example :
       ∧ contents h 3 (.cell 0) = some [2]
       ∧ contents [⟨2, .cell 2⟩, ⟨1, .cell 0⟩, ⟨7, .nil⟩] 4 (.cell 0) = some [2, 7] := by
   refine ⟨by rfl, by rfl, by rfl⟩
+
+/-! ## (A) computes (B): the list an operation returns has the value the value-level model gives -/
+
+/-- For every non-destructive operation the heap-level result denotes exactly `valueOf` applied to
+    the values of the list arguments (`xs`, `ys` = contents of the first / second list argument). -/
+theorem nondestructive_refines_value {h h' : Heap} {op : Op} {res : Ref} {xs ys : List Val}
+    (hnd : op.destructive = false) (hr : run h op = .ok (h', res))
+    (hx : ∀ x, op.listArgs[0]? = some x → contents h (stdFuel h) x = some xs)
+    (hy : ∀ y, op.listArgs[1]? = some y → contents h (stdFuel h) y = some ys) :
+    ∃ n vs, valueOf op xs ys = .ok vs ∧ contents h' n res = some vs := by
+  cases op with
+  | lit vs =>
+    simp [run] at hr
+    refine ⟨vs.length, vs, rfl, ?_⟩
+    have := allocList_contents_nil h vs
+    rw [hr] at this; exact this
+  | alias x =>
+    simp [run] at hr
+    refine ⟨stdFuel h, xs, rfl, ?_⟩
+    rw [← hr.1, ← hr.2]; exact hx x rfl
+  | cons v x =>
+    simp [run] at hr
+    refine ⟨stdFuel h + 1, v :: xs, rfl, ?_⟩
+    rw [← hr.1, ← hr.2]; exact consCell_contents v (hx x rfl)
+  | listStar v w x =>
+    simp only [run] at hr
+    simp at hr
+    refine ⟨stdFuel h + 2, v :: w :: xs, rfl, ?_⟩
+    have := allocList_contents (hx x rfl) [v, w]
+    rw [hr] at this; simpa using this
+  | append x y =>
+    unfold run at hr
+    cases hcx : chainOf h x with
+    | error e => simp [hcx, bind, Except.bind] at hr
+    | ok as =>
+      cases hcy : chainOf h y with
+      | error e => simp [hcx, hcy, bind, Except.bind] at hr
+      | ok bs =>
+        simp [hcx, hcy, bind, Except.bind] at hr
+        have hxs := args_val hcx (hx x rfl)
+        refine ⟨stdFuel h + (carsOf h as).length, xs ++ ys, rfl, ?_⟩
+        have := allocList_contents (hy y rfl) (carsOf h as)
+        rw [hr] at this; rw [hxs]; exact this
+  | nthcdr k x =>
+    unfold run at hr
+    cases hcx : chainOf h x with
+    | error e => simp [hcx, bind, Except.bind] at hr
+    | ok as =>
+      simp [hcx, bind, Except.bind] at hr
+      have hxs := args_val hcx (hx x rfl)
+      have hch := chainOf_ok.mp hcx
+      refine ⟨stdFuel h, vNthcdr k xs, rfl, ?_⟩
+      rw [← hr.1, ← hr.2, contents_of_chain (chain_drop k hch), carsOf_drop k (chain_lt hch), hxs]; rfl
+  | last k x =>
+    unfold run at hr
+    cases hcx : chainOf h x with
+    | error e => simp [hcx, bind, Except.bind] at hr
+    | ok as =>
+      simp [hcx, bind, Except.bind] at hr
+      have hxs := args_val hcx (hx x rfl)
+      have hch := chainOf_ok.mp hcx
+      refine ⟨stdFuel h, vLast k xs, rfl, ?_⟩
+      rw [← hr.1, ← hr.2, contents_of_chain (chain_drop _ hch), carsOf_drop _ (chain_lt hch), hxs]
+      simp [vLast, carsOf_length (chain_lt hch)]
+  | member v x =>
+    unfold run at hr
+    cases hcx : chainOf h x with
+    | error e => simp [hcx, bind, Except.bind] at hr
+    | ok as =>
+      simp [hcx, bind, Except.bind] at hr
+      have hxs := args_val hcx (hx x rfl)
+      have hch := chainOf_ok.mp hcx
+      refine ⟨stdFuel h, vMember v xs, rfl, ?_⟩
+      rw [← hr.1, ← hr.2, contents_of_chain (chain_drop _ hch), carsOf_drop _ (chain_lt hch), hxs]
+      simp [vMember, drop_length_takeWhile]
+  | butlast k x =>
+    unfold run at hr
+    cases hcx : chainOf h x with
+    | error e => simp [hcx, bind, Except.bind] at hr
+    | ok as =>
+      simp [hcx, bind, Except.bind] at hr
+      have hxs := args_val hcx (hx x rfl)
+      refine ⟨(vButlast k (carsOf h as)).length, vButlast k xs, rfl, ?_⟩
+      have := allocList_contents_nil h (vButlast k (carsOf h as))
+      rw [hr] at this; rw [hxs]; exact this
+  | subseq s e x =>
+    unfold run at hr
+    cases hcx : chainOf h x with
+    | error e => simp [hcx, bind, Except.bind] at hr
+    | ok as =>
+      have hxs := args_val hcx (hx x rfl)
+      cases hv : vSubseq s e (carsOf h as) with
+      | error e => simp [hcx, hv, bind, Except.bind] at hr
+      | ok vs =>
+        simp [hcx, hv, bind, Except.bind] at hr
+        refine ⟨vs.length, vs, by simp [valueOf, hxs, hv], ?_⟩
+        have := allocList_contents_nil h vs
+        rw [hr] at this; exact this
+  | copyList x =>
+    unfold run at hr
+    cases hcx : chainOf h x with
+    | error e => simp [hcx, bind, Except.bind] at hr
+    | ok as =>
+      simp [hcx, bind, Except.bind] at hr
+      have hxs := args_val hcx (hx x rfl)
+      refine ⟨(carsOf h as).length, xs, rfl, ?_⟩
+      have := allocList_contents_nil h (carsOf h as)
+      rw [hr] at this; rw [hxs]; exact this
+  | reverse x =>
+    unfold run at hr
+    cases hcx : chainOf h x with
+    | error e => simp [hcx, bind, Except.bind] at hr
+    | ok as =>
+      simp [hcx, bind, Except.bind] at hr
+      have hxs := args_val hcx (hx x rfl)
+      refine ⟨(carsOf h as).reverse.length, xs.reverse, rfl, ?_⟩
+      have := allocList_contents_nil h (carsOf h as).reverse
+      rw [hr] at this; rw [hxs]; exact this
+  | remove p x =>
+    unfold run at hr
+    cases hcx : chainOf h x with
+    | error e => simp [hcx, bind, Except.bind] at hr
+    | ok as =>
+      simp [hcx, bind, Except.bind] at hr
+      have hxs := args_val hcx (hx x rfl)
+      have hch := chainOf_ok.mp hcx
+      refine ⟨stdFuel h + as.length, vRemove p xs, rfl, ?_⟩
+      have hch' : chain h (stdFuel h) (refOf as) = some as := by rw [refOf_chain hch]; exact hch
+      have := removeCells_contents p hch'
+      rw [hr] at this; rw [hxs]; exact this
+  | mapcar f x =>
+    unfold run at hr
+    cases hcx : chainOf h x with
+    | error e => simp [hcx, bind, Except.bind] at hr
+    | ok as =>
+      simp [hcx, bind, Except.bind] at hr
+      have hxs := args_val hcx (hx x rfl)
+      refine ⟨(vMapcar f (carsOf h as)).length, vMapcar f xs, rfl, ?_⟩
+      have := allocList_contents_nil h (vMapcar f (carsOf h as))
+      rw [hr] at this; rw [hxs]; exact this
+  | rplaca x v => simp [Op.destructive] at hnd
+  | setNth n x v => simp [Op.destructive] at hnd
+  | rplacd x y => simp [Op.destructive] at hnd
+  | nconc x y => simp [Op.destructive] at hnd
+  | add x vs => simp [Op.destructive] at hnd
+  | nreverse x => simp [Op.destructive] at hnd
+  | sort x => simp [Op.destructive] at hnd
+  | delete p x => simp [Op.destructive] at hnd
+
+
+/-- For every destructive operation (`rplaca`, `(setf nth)`, `rplacd`, `nconc`, `add`, `nreverse`,
+    `sort`, `delete`) the list it returns denotes `valueOf` applied to the argument values. -/
+theorem destructive_refines_value {h h' : Heap} {op : Op} {res : Ref} {xs ys : List Val}
+    (hd : op.destructive = true) (hr : run h op = .ok (h', res))
+    (hx : ∀ x, op.listArgs[0]? = some x → contents h (stdFuel h) x = some xs)
+    (hy : ∀ y, op.listArgs[1]? = some y → contents h (stdFuel h) y = some ys) :
+    ∃ n vs, valueOf op xs ys = .ok vs ∧ contents h' n res = some vs := by
+  cases op with
+  | rplaca x v =>
+    unfold run at hr
+    cases hcx : chainOf h x with
+    | error e => simp [hcx, bind, Except.bind] at hr
+    | ok as =>
+      have hxs := args_val hcx (hx x rfl)
+      have hch := chainOf_ok.mp hcx
+      cases as with
+      | nil => simp [hcx, bind, Except.bind] at hr
+      | cons a rest =>
+        simp [hcx, bind, Except.bind] at hr
+        have hlt := chain_lt hch
+        have ha : a < h.length := hlt a (by simp)
+        obtain ⟨c, hg⟩ : ∃ c, h[a]? = some c := ⟨h[a], List.getElem?_eq_getElem ha⟩
+        have hset := carsOf_setCar_nth (k := 0) (a := a) v (chain_nodup hch) hlt (by simp)
+        rw [carsOf_cons_some hg] at hset hxs
+        refine ⟨stdFuel h, v :: carsOf h rest, by simp [valueOf, hxs, vRplaca], ?_⟩
+        rw [← hr.1, ← hr.2]
+        unfold contents
+        rw [chain_setCar, hch]
+        simpa using hset
+  | setNth k x v =>
+    unfold run at hr
+    cases hcx : chainOf h x with
+    | error e => simp [hcx, bind, Except.bind] at hr
+    | ok as =>
+      have hxs := args_val hcx (hx x rfl)
+      have hch := chainOf_ok.mp hcx
+      cases hk : as[k]? with
+      | none => simp [hcx, hk, bind, Except.bind] at hr
+      | some a =>
+        simp [hcx, hk, bind, Except.bind] at hr
+        have hlt := chain_lt hch
+        have hset := carsOf_setCar_nth v (chain_nodup hch) hlt hk
+        have hklt : k < as.length := (List.getElem?_eq_some_iff.mp hk).1
+        refine ⟨stdFuel h, xs.set k v, ?_, ?_⟩
+        · simp [valueOf, vSetNth, hxs, carsOf_length hlt, hklt]
+        · rw [← hr.1, ← hr.2]
+          unfold contents
+          rw [chain_setCar, hch, hxs]
+          simpa using hset
+  | rplacd x y =>
+    unfold run at hr
+    cases hcx : chainOf h x with
+    | error e => simp [hcx, bind, Except.bind] at hr
+    | ok as =>
+      cases hcy : chainOf h y with
+      | error e => simp [hcx, hcy, bind, Except.bind] at hr
+      | ok bs =>
+        have hxs := args_val hcx (hx x rfl)
+        have hys := args_val hcy (hy y rfl)
+        have hch := chainOf_ok.mp hcx
+        have hchy := chainOf_ok.mp hcy
+        cases as with
+        | nil => simp [hcx, hcy, bind, Except.bind] at hr
+        | cons a rest =>
+          simp [hcx, hcy, bind, Except.bind] at hr
+          split at hr
+          · simp at hr
+          · rename_i hnc
+            simp at hr
+            have hnot : a ∉ bs := by simpa using hnc
+            have hlt := chain_lt hch
+            have ha : a < h.length := hlt a (by simp)
+            obtain ⟨c, hg⟩ : ∃ c, h[a]? = some c := ⟨h[a], List.getElem?_eq_getElem ha⟩
+            have hxa : x = .cell a := by have := refOf_chain hch; simpa [refOf] using this.symm
+            rw [carsOf_cons_some hg] at hxs
+            refine ⟨stdFuel h + 1, c.car :: ys, by simp [valueOf, hxs, vRplacd], ?_⟩
+            rw [← hr.1, ← hr.2, hxa]
+            unfold contents
+            rw [chain_setCdr_head hg hchy hnot]
+            simp only [Option.map_some, carsOf_setCdr, carsOf_cons_some hg, hys]
+  | nconc x y =>
+    unfold run at hr
+    cases hcx : chainOf h x with
+    | error e => simp [hcx, bind, Except.bind] at hr
+    | ok as =>
+      cases hcy : chainOf h y with
+      | error e => simp [hcx, hcy, bind, Except.bind] at hr
+      | ok bs =>
+        have hxs := args_val hcx (hx x rfl)
+        have hys := args_val hcy (hy y rfl)
+        have hch := chainOf_ok.mp hcx
+        have hchy := chainOf_ok.mp hcy
+        have hxc := hx x rfl
+        have hyc := hy y rfl
+        simp [hcx, hcy, bind, Except.bind] at hr
+        split at hr
+        · rename_i hnone
+          simp at hr
+          have : as = [] := by simpa using hnone
+          subst this
+          refine ⟨stdFuel h, ys, by simp [valueOf, hxs, carsOf], ?_⟩
+          rw [← hr.1, ← hr.2]; exact hyc
+        · simp at hr
+          have : bs = [] := by rw [chain_nil] at hchy; exact (Option.some.inj hchy).symm
+          subst this
+          refine ⟨stdFuel h, xs, by simp [valueOf, hys, carsOf], ?_⟩
+          rw [← hr.1, ← hr.2]; exact hxc
+        · rename_i l _ hl
+          split at hr
+          · cases hr
+          · rename_i hany
+            simp at hr
+            have hdisj : ∀ a ∈ as, a ∉ bs := by
+              intro a ha hb
+              exact hany ⟨a, ha, hb⟩
+            refine ⟨stdFuel h + stdFuel h, xs ++ ys, rfl, ?_⟩
+            rw [← hr.1, ← hr.2]
+            unfold contents
+            rw [chain_setCdr_last hchy hch hl hdisj]
+            simp only [Option.map_some, carsOf_setCdr, carsOf_append, hxs, hys]
+  | add x vs =>
+    unfold run at hr
+    cases hcx : chainOf h x with
+    | error e => simp [hcx, bind, Except.bind] at hr
+    | ok as =>
+      have hxs := args_val hcx (hx x rfl)
+      have hch := chainOf_ok.mp hcx
+      obtain ⟨ext, he⟩ := allocList_grows h vs .nil
+      obtain ⟨fresh, hcf, hvf, hff, _⟩ := allocList_spec (h := h) (n := 0) (tail := .nil) (ts := []) (by simp [chain]) vs
+      simp [hcx, bind, Except.bind] at hr
+      cases hl : as.getLast? with
+      | none =>
+        simp [hl] at hr
+        have : as = [] := by simpa using hl
+        subst this
+        refine ⟨vs.length, vs, by simp [valueOf, hxs, carsOf], ?_⟩
+        rw [← hr.1, ← hr.2]; exact allocList_contents_nil h vs
+      | some l =>
+        simp [hl] at hr
+        have hlt := chain_lt hch
+        have hch1 : chain (allocList h vs .nil).1 (stdFuel h) x = some as := by
+          rw [he]; exact (frame_of_append ext hch).1
+        have hdisj : ∀ a ∈ as, a ∉ fresh ++ [] := by
+          intro a ha hb
+          have h1 := hlt a ha
+          have h2 := hff a (by simpa using hb)
+          omega
+        refine ⟨stdFuel h + (0 + vs.length), xs ++ vs, rfl, ?_⟩
+        rw [← hr.1, ← hr.2]
+        unfold contents
+        rw [chain_setCdr_last hcf hch1 hl hdisj]
+        simp only [Option.map_some, carsOf_setCdr, carsOf_append, List.append_nil, hvf]
+        have : carsOf (allocList h vs .nil).1 as = carsOf h as := by
+          rw [he]; exact (frame_of_append ext hch).2
+        rw [this, hxs]
+  | nreverse x =>
+    unfold run at hr
+    cases hcx : chainOf h x with
+    | error e => simp [hcx, bind, Except.bind] at hr
+    | ok as =>
+      have hxs := args_val hcx (hx x rfl)
+      have hch := chainOf_ok.mp hcx
+      simp [hcx, bind, Except.bind] at hr
+      have hlt := chain_lt hch
+      refine ⟨stdFuel h, xs.reverse, rfl, ?_⟩
+      rw [← hr.1, ← hr.2]
+      unfold contents
+      rw [chain_writeCars, hch]
+      simp only [Option.map_some]
+      rw [carsOf_writeCars (chain_nodup hch) hlt (by simp [carsOf_length hlt]), hxs]
+  | sort x =>
+    unfold run at hr
+    cases hcx : chainOf h x with
+    | error e => simp [hcx, bind, Except.bind] at hr
+    | ok as =>
+      have hxs := args_val hcx (hx x rfl)
+      have hch := chainOf_ok.mp hcx
+      simp [hcx, bind, Except.bind] at hr
+      have hlt := chain_lt hch
+      refine ⟨stdFuel h, vSort xs, rfl, ?_⟩
+      rw [← hr.1, ← hr.2]
+      unfold contents
+      rw [chain_writeCars, hch]
+      simp only [Option.map_some]
+      rw [carsOf_writeCars (chain_nodup hch) hlt (by simp [vSort_length, carsOf_length hlt]), hxs]
+  | delete p x =>
+    unfold run at hr
+    cases hcx : chainOf h x with
+    | error e => simp [hcx, bind, Except.bind] at hr
+    | ok as =>
+      have hxs := args_val hcx (hx x rfl)
+      have hch := chainOf_ok.mp hcx
+      simp [hcx, bind, Except.bind] at hr
+      have hlt := chain_lt hch
+      refine ⟨(keptCells p h as).length, vRemove p xs, rfl, ?_⟩
+      rw [← hr.1, ← hr.2]
+      unfold contents
+      rw [chain_linkCells (keptCells_nodup p h (chain_nodup hch)) (fun a ha => hlt a (keptCells_subset ha))]
+      simp only [Option.map_some, carsOf_linkCells]
+      rw [carsOf_keptCells p hlt, hxs]
+  | lit vs => simp [Op.destructive] at hd
+  | alias x => simp [Op.destructive] at hd
+  | cons v x => simp [Op.destructive] at hd
+  | listStar v w x => simp [Op.destructive] at hd
+  | append x y => simp [Op.destructive] at hd
+  | nthcdr n x => simp [Op.destructive] at hd
+  | last n x => simp [Op.destructive] at hd
+  | member v x => simp [Op.destructive] at hd
+  | butlast n x => simp [Op.destructive] at hd
+  | subseq s e x => simp [Op.destructive] at hd
+  | copyList x => simp [Op.destructive] at hd
+  | reverse x => simp [Op.destructive] at hd
+  | remove p x => simp [Op.destructive] at hd
+  | mapcar f x => simp [Op.destructive] at hd
+
+
+/-- **(A) computes (B)**, all operations. -/
+theorem run_refines_value {h h' : Heap} {op : Op} {res : Ref} {xs ys : List Val}
+    (hr : run h op = .ok (h', res))
+    (hx : ∀ x, op.listArgs[0]? = some x → contents h (stdFuel h) x = some xs)
+    (hy : ∀ y, op.listArgs[1]? = some y → contents h (stdFuel h) y = some ys) :
+    ∃ n vs, valueOf op xs ys = .ok vs ∧ contents h' n res = some vs := by
+  cases hd : op.destructive with
+  | false => exact nondestructive_refines_value hd hr hx hy
+  | true => exact destructive_refines_value hd hr hx hy
+
+-- a = (1 2), c = (5): (nconc a c) returns a list denoting (1 2 5) = valueOf on the argument values
+example :
+    let h : Heap := [⟨2, .nil⟩, ⟨1, .cell 0⟩, ⟨5, .nil⟩]
+    run h (.nconc (.cell 1) (.cell 2)) = .ok ([⟨2, .cell 2⟩, ⟨1, .cell 0⟩, ⟨5, .nil⟩], .cell 1)
+      ∧ contents h (stdFuel h) (.cell 1) = some [1, 2] ∧ contents h (stdFuel h) (.cell 2) = some [5]
+      ∧ valueOf (.nconc (.cell 1) (.cell 2)) [1, 2] [5] = .ok [1, 2, 5] := by
+  refine ⟨by rfl, by rfl, by rfl, by rfl⟩
 
 end SlipVerif.ListHeap
